@@ -778,7 +778,7 @@ impl DtlsInner {
                         (msg, raw_msg)
                     };
 
-                    ctx.recv_message_seq += 1;
+                    ctx.recv_message_seq = ctx.recv_message_seq.wrapping_add(1);
 
                     if processing_msg.msg_type != HandshakeType::Finished
                         && processing_msg.msg_type != HandshakeType::HelloRequest
